@@ -251,7 +251,7 @@ impl Check for C08 {
         "C08"
     }
     fn rule(&self) -> String {
-        "proptest-generated: 1-4 sources (regular files incl. multi-block ones, symlinks, fifos, sockets, directories with children) copied with -n into an existing directory pre-populated with 0-2 colliding entries (regular file, directory, valid symlink, dangling symlink, fifo, socket) at the mapped path of a top-level source or of an entry below a directory source, plus unrelated entries; both drivers, workers 1-16; -n optionally combined with --backup=numbered|auto, --no-perms, --fsync; one run in six under the supervisor's scheduler (random / walker-first / workers-first / starved worker). Oracle: every entry that existed before, anywhere in the sandbox, is unchanged (content, kind, link text, mode, owner, mtime for non-directories) and nothing appears outside the destination; if a source file, link or special node maps onto an existing entry (lstat) the exit status is non-zero. Non-trivial: >=1 collision at a reachable (top-level) position together with >=1 non-colliding entry; distinct by case hash. Collisions only below a directory source are generated too but reported as the shadowed class 'deep'.".into()
+        "proptest-generated: 1-4 sources (regular files incl. multi-block ones, symlinks, fifos, sockets, directories with children) copied with -n into an existing directory pre-populated with 0-2 colliding entries (regular file, directory, valid symlink, dangling symlink, fifo, socket) at the mapped path of a top-level source or of an entry below a directory source, plus unrelated entries; both drivers, workers 1-16; -n optionally combined with --backup=numbered|auto, --no-perms, --fsync; one case in eight as -T with a single source mapped onto d/t itself (pre-created by the first collision, if any); one run in six under the supervisor's scheduler (random / walker-first / workers-first / starved worker). Oracle: every entry that existed before, anywhere in the sandbox, is unchanged (content, kind, link text, mode, owner, mtime for non-directories) and nothing appears outside the destination; if a source file, link or special node maps onto an existing entry (lstat) the exit status is non-zero. Non-trivial: >=1 collision at a reachable (top-level) position together with >=1 non-colliding entry; distinct by case hash. Collisions only below a directory source are generated too but reported as the shadowed class 'deep'.".into()
     }
     fn needs(&self) -> Needs {
         Needs { xcp: true, probe: false, fallback: false }
